@@ -395,23 +395,41 @@ func valueDigest(c system.Collection) string {
 	return fmt.Sprintf("%d:%s", len(c), digest(b.String()))
 }
 
+// compileOptCache, when non-nil, makes option VALUES be reused: the same AddFunction(...) /
+// WithExperimentalFuncs() value is handed to several Compile calls, the way an application
+// keeps a slice of options around. An option value must not remember what an earlier Compile
+// did with it. The isolated reference always gets fresh values.
+var compileOptCache map[string]fhirpath.CompileOption
+
 func buildCompileOpts(specs []COpt) ([]fhirpath.CompileOption, error) {
 	var out []fhirpath.CompileOption
 	for _, s := range specs {
+		key := s.Kind + "|" + s.Name + "|" + s.Fn
+		if compileOptCache != nil {
+			if o, ok := compileOptCache[key]; ok {
+				out = append(out, o)
+				continue
+			}
+		}
+		var o fhirpath.CompileOption
 		switch s.Kind {
 		case "fn":
 			fn, err := callback(s.Fn)
 			if err != nil {
 				return nil, err
 			}
-			out = append(out, compopts.AddFunction(s.Name, fn))
+			o = compopts.AddFunction(s.Name, fn)
 		case "exp":
-			out = append(out, compopts.WithExperimentalFuncs())
+			o = compopts.WithExperimentalFuncs()
 		case "perm":
-			out = append(out, compopts.Permissive()) //nolint:staticcheck
+			o = compopts.Permissive() //nolint:staticcheck
 		default:
 			return nil, fmt.Errorf("unknown compile option kind %q", s.Kind)
 		}
+		if compileOptCache != nil {
+			compileOptCache[key] = o
+		}
+		out = append(out, o)
 	}
 	return out, nil
 }
@@ -478,6 +496,8 @@ type inputs struct {
 	nodeIdx   map[proto.Message]nodeRef
 	resNodes  [][]proto.Message
 	vars      []any
+	// evalOptCache, when non-nil, makes EnvVariable option values be reused between Evaluate calls
+	evalOptCache map[string]fhirpath.EvaluateOption
 }
 
 func (r *inputs) buildVar(i int, vs *VarSpec, built []any) (any, error) {
@@ -600,6 +620,17 @@ func (r *inputs) buildEvalOpts(specs []EOpt, entryOverride *time.Time) ([]fhirpa
 		case "var":
 			if s.Var < 0 || s.Var >= len(r.vars) {
 				return nil, false, fmt.Errorf("bad var index %d", s.Var)
+			}
+			if r.evalOptCache != nil {
+				// the same option value for several Evaluate calls (see compileOptCache)
+				key := fmt.Sprintf("%s|%d", s.Name, s.Var)
+				o, ok := r.evalOptCache[key]
+				if !ok {
+					o = evalopts.EnvVariable(s.Name, r.vars[s.Var])
+					r.evalOptCache[key] = o
+				}
+				out = append(out, o)
+				continue
 			}
 			out = append(out, evalopts.EnvVariable(s.Name, r.vars[s.Var]))
 		case "time":
